@@ -187,9 +187,10 @@ def gen_project(rng, size="small", features=None, focus=None):
     names = mod_names + FEATURES[:rng.randint(0, 3)]
     for c in all_ctx:
         if pick(rng, 0.2): c["selects"] = [("?" if pick(rng, 0.5) else "") + rng.choice(names) for _ in range(rng.randint(1, 2))]
-        if pick(rng, 0.08): c["disables"] = [rng.choice(names)]
-        if pick(rng, 0.1): c["provides"] = [rng.choice(FEATURES)]
-        if pick(rng, 0.07): c["provides_unique"] = [rng.choice(FEATURES)]
+        hi = focus == "conflicts"
+        if pick(rng, 0.25 if hi else 0.08): c["disables"] = [rng.choice(names) for _ in range(rng.randint(1, 2))]
+        if pick(rng, 0.2 if hi else 0.1): c["provides"] = [rng.choice(FEATURES)]
+        if pick(rng, 0.25 if hi else 0.07): c["provides_unique"] = [rng.choice(FEATURES)]
         if pick(rng, 0.08): c["tasks"] = {rng.choice(["t1", "t3"]): rand_task(rng, names)}
     ctx_all_names = ["default"] + ctx_names + [b["name"] for b in builders]
     global CTXNAMES
@@ -274,7 +275,7 @@ def gen_project(rng, size="small", features=None, focus=None):
     cli = {}
     if pick(rng, 0.3): cli["select"] = [("?" if pick(rng, 0.3) else "") + rng.choice(names) for _ in range(rng.randint(1, 2))]
     if pick(rng, 0.15): cli["disable"] = [rng.choice(names) for _ in range(rng.randint(1, 2))]
-    if pick(rng, 0.7 if MULTIKEY else 0.25): cli["define"] = [rng.choice(VARS[:3]) + rng.choice(["=", "+="]) + rng.choice(["d1", "d 2", "${X}", ""]) for _ in range(rng.randint(1, 3))]
+    if pick(rng, 0.7 if MULTIKEY else 0.25): cli["define"] = [rng.choice(VARS[:3]) + rng.choice(["=", "+="]) + rng.choice(["d1", "d 2", "${X}", "", "-Wl,-Map=out.map", "a,b", "k=v,w"]) for _ in range(rng.randint(1, 3))]
     if pick(rng, 0.15): cli["builders"] = rng.sample([b["name"] for b in builders], rng.randint(1, len(builders)))
     if pick(rng, 0.15): cli["apps"] = rng.sample([a["name"] for a in apps], rng.randint(1, len(apps)))
     if layout and pick(rng, 0.3):
